@@ -23,10 +23,14 @@ type C36Case struct {
 	// Concurrent: a second client compiles the same workspace on the same
 	// executor at the same time (its runs are all warm); every report of either
 	// client must equal the reference.
-	Concurrent int       `json:"concurrent_runs,omitempty"`
-	Perm       []int     `json:"perm"`  // permutation seed for the Canonicalize oracle
-	Synth      []SynDiag `json:"synth"` // synthetic diagnostics for the Canonicalize oracle
-	Sched      Sched     `json:"sched"`
+	Concurrent int `json:"concurrent_runs,omitempty"`
+	// ConcEvict[i] != "": before its i-th run the second client evicts that
+	// file's queries (the file itself does not change, so nothing may change
+	// in any report).
+	ConcEvict []string  `json:"concurrent_evictions,omitempty"`
+	Perm      []int     `json:"perm"`  // permutation seed for the Canonicalize oracle
+	Synth     []SynDiag `json:"synth"` // synthetic diagnostics for the Canonicalize oracle
+	Sched     Sched     `json:"sched"`
 }
 
 type C36Run struct {
@@ -63,7 +67,15 @@ func genC36(t *rapid.T) C36Case {
 		c.Runs = append(c.Runs, C36Run{Par: rapid.IntRange(1, 4).Draw(t, "par"), Warm: i > 0 && rapid.IntRange(0, 3).Draw(t, "warm") == 0})
 	}
 	if rapid.IntRange(0, 3).Draw(t, "concurrent") == 0 {
-		c.Concurrent = rapid.IntRange(1, 2).Draw(t, "nconcurrent")
+		c.Concurrent = rapid.IntRange(1, 3).Draw(t, "nconcurrent")
+		for i := 0; i < c.Concurrent; i++ {
+			ev := ""
+			if rapid.IntRange(0, 1).Draw(t, "concEvict") == 0 {
+				names := c.WL.names()
+				ev = names[rapid.IntRange(0, len(names)-1).Draw(t, "concEvictFile")]
+			}
+			c.ConcEvict = append(c.ConcEvict, ev)
+		}
 	}
 	for i := 0; i < 12; i++ {
 		c.Perm = append(c.Perm, rapid.IntRange(0, 1000).Draw(t, "perm"))
@@ -251,6 +263,10 @@ func execC36(t *testing.T, c C36Case) *Verdict {
 				if e == nil {
 					continue // c0 has not created an executor yet
 				}
+				if i < len(c.ConcEvict) && c.ConcEvict[i] != "" {
+					sim.S().Fault("evict-unchanged-file")
+					e.evict([]string{c.ConcEvict[i]})
+				}
 				sim.S().Probe("concurrent-run-on-shared-executor")
 				got := e.compile(context.Background())
 				if !judge("client c1 (concurrent, same executor)", i, C36Run{Warm: true}, got) {
@@ -260,7 +276,18 @@ func execC36(t *testing.T, c C36Case) *Verdict {
 		}})
 	}
 	cfg := incrBubbleCfg(&c.Sched, &gworld{}, 100000)
-	cfg.Guards = nil
+	cfg.Guards = map[string]func() bool{
+		// an eviction reaches the executor's exclusive lock only while that lock
+		// can really be taken (probed, not modelled) and nothing a Run spawned is
+		// still alive
+		"i.evict.lock": func() bool {
+			if env == nil {
+				return true
+			}
+			canLock, _ := env.exec.VerifDirtyState()
+			return canLock && !sim.SpawnedParked()
+		},
+	}
 	out := sim.RunBubble(t, cfg, clients, nil)
 	st.Case(fmt.Sprintf("%v|%v|%v|%v|%d", c.WL.Files, c.Roots, c.Runs, c.Synth, out.TraceHash), ref.ndiag > 1)
 	st.ProbeN("diagnostics-in-reference", int64(ref.ndiag))
